@@ -29,6 +29,7 @@ type Exec struct {
 	assignedGlobals []string
 	havocAllSeen bool
 	atHits       map[*AtSpec]bool
+	loopHits     map[*LoopSpec]bool
 }
 
 type closureVal struct {
@@ -61,10 +62,12 @@ type Frame struct {
 	closureOrd map[string]int
 	body     *ast.BlockStmt
 	modsInfo map[string]string
+	unitBody *ast.BlockStmt // body of the function under contract (closures keep it)
+	unitLo, unitHi token.Pos // source range of the function under contract: only its own variables are visible to contracts
 }
 
 func newExec(eng *Engine, u *Unit) *Exec {
-	x := &Exec{eng: eng, u: u, heapDeclared: map[string]bool{}, globals: map[*types.Var]Val{}, needPrelude: map[string]bool{}, callCount: map[string]int{}, closures: map[string]*closureVal{}, emptyArr: map[string]string{}, atHits: map[*AtSpec]bool{}}
+	x := &Exec{eng: eng, u: u, heapDeclared: map[string]bool{}, globals: map[*types.Var]Val{}, needPrelude: map[string]bool{}, callCount: map[string]int{}, closures: map[string]*closureVal{}, emptyArr: map[string]string{}, atHits: map[*AtSpec]bool{}, loopHits: map[*LoopSpec]bool{}}
 	u.decls = append(u.decls, "(declare-const next!0 Int)")
 	u.fact("(> next!0 0)")
 	x.next0 = "next!0"
